@@ -161,6 +161,7 @@ func checkC18(c *ev.Ctx) {
 	}
 	for i, dc := range caps {
 		id := fmt.Sprintf("hdr-%d", i)
+		noteCase(id)
 		if !want(c, id) {
 			continue
 		}
